@@ -101,6 +101,11 @@ def skeletons(tier, seed=0):
         out.append(('C', ('c', [('i', None, [A('Ca'), A('C'), A('O')]), ('i', 'w', [A('H', 0, 0, 'w'), A('O')])], [sep]), None, ''))
         out.append(('C', ('c', [('i', None, [A('Fe', 0, 3)]), ('i', 'f', [A('O', 0, -2)])], [sep]), None, ''))
         out.append(('C', ('c', [('e', 'w', ('c', [('i', None, [A('Na'), A('Cl')]), ('i', 'w', [A('H', 0, 0, 'w'), A('O')])], [sep]))]), None, ''))
+    # 3d. a parenthesised group, a space, then a counted group: the number belongs to the next group
+    for sep in (' ', '  '):
+        out.append(('C', ('c', [('e', None, ('c', [('i', None, [A('H', 0, 0, 'w'), A('O')])])), ('i', 'w', [A('Na'), A('Cl')])], [sep]), None, ''))
+        out.append(('C', ('c', [('e', 'w', ('c', [('i', None, [A('C'), A('H', 0, 0, 'w')])])), ('i', 'f', [A('O', 0, -2)]), ('e', None, ('c', [('i', None, [A('D')])]), (' ', ' ')),
+                                ('i', 'w', [A('Fe', 56, 3)])], [sep, sep, sep]), None, ''))
     # 4. nesting depth 2, 3 with repeated atoms at several depths
     out.append(('C', ('c', [('i', None, [A('H'), A('O')]), ('e', 'w', ('c', [('e', 'w', ('c', [('i', None, [A('C'), A('H', 0, 0, 'w')])])), ('i', None, [A('O')])]), (' ', ' ')),
                             ('i', None, [A('H')])], [' ', ' ']), None, ''))
